@@ -290,7 +290,11 @@ fn truncate_value(v: &mut Value) {
     match v {
         Value::String(s) if s.len() > 160 => {
             let n = s.len();
-            s.truncate(120);
+            let mut cut = 120;
+            while !s.is_char_boundary(cut) {
+                cut -= 1;
+            }
+            s.truncate(cut);
             s.push_str(&format!("...({} chars)", n));
         }
         Value::Array(a) => {
